@@ -167,44 +167,25 @@ def check(ctx):
             ok = any(isinstance(s, ast.Raise) and "FormatError" in unparse(s) for s in n.body)
     ctx.ob("R3", f"{CO}:_Formatter._iter_tokens", "tokenizer errors are converted into FormatError", ok, key="iter_tokens|format-error")
     cl = ctx.repo.module(CL)
-    po = cl.func("_process_one")
-    cfg = CFG(po)
-    writes = [c for c in calls_in(po) if call_name(c) == "open" and is_write_mode(open_mode(c) or "w")]
-    if not writes:
-        raise AnchorMissing(f"{CL}:_process_one: no write-mode open")
-    fmts = [n for n in cfg.nodes if n.kind == "stmt" and any(call_name(c) == "format_source" for c in calls_in(n.ast))]
-    # roles: the formatter's output and the text it was given
-    pdefs = df.all_defs(po)
-    FORMATTED = names_bound_to_call(po, lambda nm_: nm_ == "format_source", pdefs)
-    ORIGINAL = {unparse(c.args[0]) for n in fmts for c in calls_in(n.ast) if call_name(c) == "format_source" and c.args}
-    for w in writes:
-        wn = node_in(cfg, stmt_of(w))[0]
-        dom = cfg.dominated(wn, lambda m: m in fmts)
-        ctx.ob("R3", f"{CL}:_process_one", f"`{short(w)}` is reached only after format_source returned normally", dom, key="process_one|write-before-format", where=loc(w))
-        facts = facts_at(cfg, wn)
-        ft = facts_text(facts)
-        changed = any((t in {f"{a_} == {b_}" for a_ in ORIGINAL for b_ in FORMATTED} | {f"{b_} == {a_}" for a_ in ORIGINAL for b_ in FORMATTED}) and not pol for t, pol in nfacts(cfg, wn))
-        ctx.ob("R3", f"{CL}:_process_one", "the file is rewritten only if the text changed", changed, key="process_one|write-unchanged", where=loc(w), detail="; ".join(ft))
-        nocheck = "not args.check" in ft and "not args.diff" in ft
-        ctx.ob("R3", f"{CL}:_process_one", "--check / --diff never write", nocheck, key="process_one|write-in-check-mode", where=loc(w))
-        # what is written is the formatter's output
-        wstmt = stmt_of(w)
-        wr = [c for c in calls_in(wstmt, local=False) if last_attr(c) == "write"] if isinstance(wstmt, ast.With) else []
-        ok = bool(wr) and all(unparse(c.args[0]) in FORMATTED for c in wr)
-        # ... and nothing touches it on the way: every definition of the written name is the formatter call itself
-        touched = [d for c in wr if isinstance(c.args[0], ast.Name) for d in pdefs.get(c.args[0].id, []) if not (d.value is not None and isinstance(d.value, ast.Call) and call_name(d.value) == "format_source")]
-        ctx.ob("R3", f"{CL}:_process_one", "exactly the formatter's output is written", ok and not touched, key="process_one|written-value", where=loc(touched[0].stmt) if touched else loc(w), detail=f"`{short(touched[0].stmt, 70)}` rewrites the output after the formatter returned (a text-level edit cannot tell a line end from a line break inside a token)" if touched else None)
-    # the text handed to the formatter is read with universal newlines (the engine's rows end in \n; a \r\n that reaches it
-    # inside a multi-line token is token text)
-    pof = flat(ctx, po, 1)
-    for c in [c for c in calls_in(pof) if call_name(c) == "open" and not is_write_mode(open_mode(c) or "r") and not getattr(stmt_of(c), "_xv_call_marker", False)]:
-        nl = kwarg(c, "newline")
-        ok = nl is None or (isinstance(nl, ast.Constant) and nl.value is None)
-        ctx.ob("R3", f"{CL}:_process_one", f"`{short(c, 60)}` reads the source with newline translation", ok, key="process_one|read-without-newline-translation", where=loc(c))
     mn = cl.func("main")
-    calls = [c for c in calls_in(mn) if call_name(c) == "_process_one"]
+    # the writer, by role: what `main` calls per file and what - seen through its helpers - opens a file for writing.  All of
+    # R3 is decided on that helper-transparent view: splitting the per-file routine (stdin part / file part / write-back
+    # helper) moves statements, not paths
+    funcs = dict(cl.functions())
+    entries = []
+    for c in calls_in(mn):
+        nm = call_name(c)
+        if nm in funcs and funcs[nm] is not mn and nm not in [e[0] for e in entries]:
+            view = flat(ctx, funcs[nm], 3)
+            if _write_opens(view):
+                entries.append((nm, funcs[nm], view))
+    if not entries:
+        raise AnchorMissing(f"{CL}: `main` calls no function of the module that (itself or through its helpers) opens a file for writing: no write-mode open")
+    for ename, efn, pov in entries:
+        _write_back(ctx, ename, efn, pov)
     from .c19 import _enclosing_try_with_handler
 
+    calls = [c for c in calls_in(mn) if call_name(c) in [e[0] for e in entries]]
     ok = bool(calls) and all(_enclosing_try_with_handler(c, {"FormatError"}, mn)[0] is not None for c in calls)
     ctx.ob("R3", f"{CL}:main", "a FormatError from one file is reported and counted, never propagated into a write", ok, key="main|format-error-handler")
     _spacing(ctx, co)
@@ -222,6 +203,99 @@ def check(ctx):
         # takes the encoding from its caller
         ok = bool(toks) and all((call_name(t) or "").split(".")[-1] == "_tokenize" and len(t.args) >= 2 and const_value(t.args[1], None) == enc for t in toks)
         ctx.ob("R5", f"{CO}:_Formatter._iter_tokens", f"bytes produced by `{short(c, 40)}` are decoded by the tokenizer as {enc!r} (not as whatever a coding cookie in the text says)", ok, key="iter_tokens|encoding-redetected-from-cookie", where=loc(c), detail=None if ok else f"tokenizer entry: {[short(t, 50) for t in toks]}")
+
+
+def _write_opens(fn):
+    return [c for c in calls_in(fn) if call_name(c) == "open" and is_write_mode(open_mode(c) or "w")]
+
+
+def _is_format_call(v):
+    return v is not None and isinstance(v, ast.Call) and call_name(v) == "format_source"
+
+
+def _foreign_defs(defs, name, seen=()):
+    """definitions that reach ``name`` - directly or through plain copies (`b = a`, a helper's parameter binding) - and are
+    not the formatter call itself"""
+    out = []
+    for d in defs.get(name, []):
+        v = d.value
+        if _is_format_call(v) and d.kind in ("assign", "walrus"):
+            continue
+        if d.kind in ("assign", "walrus") and isinstance(v, ast.Name) and v.id != name and v.id not in seen and defs.get(v.id):
+            out += _foreign_defs(defs, v.id, seen + (name,))
+            continue
+        out.append(d)
+    return out
+
+
+def _write_back(ctx, ename, efn, pov):
+    """R3 over the helper-transparent view ``pov`` of the per-file routine ``ename``"""
+    st = f"{CL}:{ename}"
+    cfg = CFG(pov)
+    writes = _write_opens(pov)
+    pdefs = df.all_defs(pov)
+    fmts = [n for n in cfg.nodes if n.kind == "stmt" and any(_is_format_call(c) for c in calls_in(n.ast))]
+    if not fmts:
+        raise AnalysisError(f"{st}: no call of format_source in the helper-transparent view")
+
+    def copies(e):
+        return {c_ for c_ in copies_of(pdefs, e.id)} if isinstance(e, ast.Name) else {unparse(e)}
+
+    # roles: the formatter's output and the text it was given - paired per formatter call, each with its plain copies
+    FORMATTED = set()
+    PAIRS = set()
+    for name, ds in pdefs.items():
+        for d in ds:
+            if d.kind in ("assign", "walrus") and _is_format_call(d.value):
+                outs = copies_of(pdefs, name)
+                FORMATTED |= outs
+                if d.value.args:
+                    PAIRS |= {(a_, b_) for a_ in copies(d.value.args[0]) for b_ in outs}
+    changed_texts = {f"{a_} == {b_}" for a_, b_ in PAIRS} | {f"{b_} == {a_}" for a_, b_ in PAIRS}
+    # the parsed command line: a parameter of the routine (and the names helpers know it by)
+    NS = set()
+    for a in efn.args.posonlyargs + efn.args.args + efn.args.kwonlyargs:
+        NS |= copies_of(pdefs, a.arg)
+
+    def is_flag(e, attr, depth=0):
+        if isinstance(e, ast.Attribute):
+            return e.attr == attr and isinstance(e.value, ast.Name) and e.value.id in NS
+        if isinstance(e, ast.Name) and depth < 4:
+            ds = pdefs.get(e.id, [])
+            return bool(ds) and all(bound(d) is not None and is_flag(bound(d), attr, depth + 1) for d in ds)
+        return False
+
+    def bound(d):
+        """the expression a definition binds to its name (element-wise for `a, b = x, y`), None if it is not a plain binding"""
+        v = d.value
+        if d.kind == "unpack":
+            return v.elts[d.index] if isinstance(v, (ast.Tuple, ast.List)) and d.index is not None and d.index < len(v.elts) and not any(isinstance(x, ast.Starred) for x in v.elts) else None
+        return v if d.kind in ("assign", "walrus") else None
+
+    for w in writes:
+        wn = node_in(cfg, stmt_of(w))[0]
+        dom = cfg.dominated(wn, lambda m: m in fmts)
+        ctx.ob("R3", st, f"`{short(w)}` is reached only after format_source returned normally", dom, key="process_one|write-before-format", where=loc(w))
+        facts = facts_at(cfg, wn)
+        ft = facts_text(facts)
+        changed = any(t in changed_texts and not pol for t, pol in nfacts(cfg, wn))
+        ctx.ob("R3", st, "the file is rewritten only if the text changed", changed, key="process_one|write-unchanged", where=loc(w), detail="; ".join(ft))
+        nocheck = all(any(not pol and is_flag(e, flag) for e, pol in facts) for flag in ("check", "diff"))
+        ctx.ob("R3", st, "--check / --diff never write", nocheck, key="process_one|write-in-check-mode", where=loc(w))
+        # what is written is the formatter's output
+        wstmt = stmt_of(w)
+        wr = [c for c in calls_in(wstmt, local=False) if last_attr(c) == "write"] if isinstance(wstmt, ast.With) else []
+        ok = bool(wr) and all(len(c.args) == 1 and unparse(c.args[0]) in FORMATTED for c in wr)
+        # ... and nothing touches it on the way: every definition that reaches the written name is the formatter call itself
+        touched = [d for c in wr if c.args and isinstance(c.args[0], ast.Name) for d in _foreign_defs(pdefs, c.args[0].id)]
+        tw = touched[0].stmt if touched and getattr(touched[0], "stmt", None) is not None else None
+        ctx.ob("R3", st, "exactly the formatter's output is written", ok and not touched, key="process_one|written-value", where=loc(tw) if tw is not None else loc(w), detail=f"`{short(tw, 70)}` rewrites the output after the formatter returned (a text-level edit cannot tell a line end from a line break inside a token)" if tw is not None else None)
+    # the text handed to the formatter is read with universal newlines (the engine's rows end in \n; a \r\n that reaches it
+    # inside a multi-line token is token text)
+    for c in [c for c in calls_in(pov) if call_name(c) == "open" and not is_write_mode(open_mode(c) or "r") and not getattr(stmt_of(c), "_xv_call_marker", False)]:
+        nl = kwarg(c, "newline")
+        ok = nl is None or (isinstance(nl, ast.Constant) and nl.value is None)
+        ctx.ob("R3", st, f"`{short(c, 60)}` reads the source with newline translation", ok, key="process_one|read-without-newline-translation", where=loc(c))
 
 
 CAPTURE_OPENERS = {"$(", "$[", "!(", "![", "@$("}
